@@ -76,11 +76,16 @@ def build_atom(torch, name, D, pos, ctxf, seed):
     if name == "logtanh":
         return NL.LogTanh(cut_point=2.0 if (pos + seed) % 2 == 0 else 0.7)
     if name == "leakyrelu":
-        return NL.LeakyReLU(0.3)
+        # the constructor accepts every positive slope: also one above 1
+        return NL.LeakyReLU(0.3 if (pos + seed) % 2 == 0 else 2.5)
     if name == "actnorm":
         m = TR.ActNorm(D)
         with torch.no_grad():
-            m.log_scale.copy_(torch.linspace(0.4, -0.3, D))
+            if D == 1 and (pos + seed) % 3 != 0:
+                # scales as data-dependent initialisation leaves them on badly scaled features (std 270 / 0.004)
+                m.log_scale.fill_(-5.6 if (pos + seed) % 3 == 1 else 5.5)
+            else:
+                m.log_scale.copy_(torch.linspace(0.4, -0.3, D))
             m.shift.copy_(torch.linspace(-0.2, 0.5, D))
             m.initialized.data = torch.tensor(True)
         return m
